@@ -47,12 +47,14 @@ structure Cfg where
   seedMem : Bool
   seedTables : Bool
   seedPlusOne : Bool
+  /-- `oracle.seedOp`: `initCommitState` moves the oracle when `committed >= nextTxnTs` (true) or only when `>` -/
+  seedGe : Bool
   deriving DecidableEq, Repr
 
 def Cfg.good : Cfg :=
   { ackAfterSync := true, headFirst := true, batchWhole := true, atomicAppend := true,
     flushOrder := .sstManifestRemove, closeFlushesWal := true, headOnFidChange := true,
-    reconcileDrops := true, seedMem := true, seedTables := true, seedPlusOne := true }
+    reconcileDrops := true, seedMem := true, seedTables := true, seedPlusOne := true, seedGe := true }
 
 /-- the unchanged tree (three open findings of C10) -/
 def Cfg.asis : Cfg := { Cfg.good with headFirst := false, batchWhole := false, atomicAppend := false }
@@ -61,6 +63,7 @@ def Cfg.asis : Cfg := { Cfg.good with headFirst := false, batchWhole := false, a
 structure Ent where
   key : Nat
   big : Bool        -- value ≥ ValueThreshold: goes to the value log, the LSM keeps a pointer
+  wlen : Nat := 0   -- bytes of its WAL record (only the driver's byte accounting reads it)
   deriving DecidableEq, Repr, Inhabited
 
 /-- a stored record: (key, version) written by batch `bid`; `ptr = some fid` = value-log pointer -/
@@ -70,6 +73,7 @@ structure Rec where
   bid : Nat
   ptr : Option Nat
   fin : Bool        -- ghost: last record of its batch
+  wlen : Nat := 0   -- bytes of the WAL record (driver only)
   deriving DecidableEq, Repr, Inhabited
 
 structure Seg where
@@ -158,7 +162,7 @@ def exec (s : St) : Step → St
     { s with vfiles := addVal s.vactive (s.curBid, key) s.vfiles, cur := s.cur ++ [((s.curBid, key), s.vactive)] }
   | .wAppend e fin =>
     let ptr := if e.big then (match lookupPtr (s.curBid, e.key) s.cur with | some f => some f | none => some s.vactive) else none
-    let r : Rec := ⟨e.key, s.curVer, s.curBid, ptr, fin⟩
+    let r : Rec := ⟨e.key, s.curVer, s.curBid, ptr, fin, e.wlen⟩
     { s with segs := modLast (fun sg => { sg with recs := sg.recs ++ [r] }) s.segs }
   | .wFlush =>
     { s with segs := modLast (fun sg => { sg with durable := sg.recs.length }) s.segs }
@@ -224,7 +228,9 @@ def readable (c : Cfg) (s : St) (r : Rec) : Bool :=
 
 def recoverSeg (sg : Seg) : Option Seg :=
   if sg.inMan then (if sg.sstFile then some { sg with walFile := false, durable := sg.recs.length } else none)
-  else if sg.walFile && decide (0 < sg.durable) then some { sg with recs := sg.recs.take sg.durable, durable := min sg.durable sg.recs.length }
+  -- every WAL segment above the log pointer is replayed, an empty one too (`mt.Size()` of an empty
+  -- skiplist is not 0, so `lsm.recovery` keeps it): the newest segment file is the active one again
+  else if sg.walFile then some { sg with recs := sg.recs.take sg.durable, durable := min sg.durable sg.recs.length }
   else none
 
 def needsFresh : List Seg → Bool
@@ -248,7 +254,9 @@ def recover (c : Cfg) (s : St) : St :=
   let mv := max (if c.seedMem then maxVer memRecs else 0) (if c.seedTables then maxVer tabRecs else 0)
   { s with segs := segs, vfiles := vf, vactive := maxList (vf.map (·.fid)),
            lastHead := s.manVlog.getLast?, cur := [], curVer := 0,
-           nextTs := if mv = 0 then 1 else (if c.seedPlusOne then mv + 1 else mv),
+           -- `newOracle` starts at 1; `initCommitState(0)` returns early; otherwise the oracle moves to
+           -- committed+1 when `committed >= 1` (`>=` as in the tree) resp. `committed > 1`
+           nextTs := if mv = 0 then 1 else (if c.seedGe || decide (1 < mv) then (if c.seedPlusOne then mv + 1 else mv) else 1),
            open_ := true, ackedLen := min s.ackedLen (recLog s).length }
 
 /-! ### procedures as step lists -/
